@@ -173,6 +173,9 @@ enum Unavail {
     /// its file is gone and its recorded location was rewritten to the file of ANOTHER listed
     /// pack that is available: two packs recorded at one location, the file holds one of them
     PointsToOtherPack,
+    /// the same container created a second time: a valid pack of exactly the same size and shape
+    /// at the same place, with another uuid
+    Twin,
 }
 
 pub struct C11;
@@ -192,7 +195,7 @@ impl Property for C11 {
     const ID: &'static str = "C11";
 
     fn rule() -> String {
-        "proptest-generated containers with 1-3 content packs in separate files (main pack through TwoFiles/NoConcat, extra packs always, OneFile with >=1 extra), contents distributed over all packs, directory entries pointing at real contents; for EVERY non-empty subset of the separate packs and every kind of unavailability {file deleted, replaced by a directory, replaced by a different valid container holding another uuid, replaced by a different valid bare content pack} (plus one mixed assignment). Oracle: Container::new succeeds; every entry equals the model; a content of an available pack reads to its bytes; a content of an unavailable pack answers MISSING whose pack id, uuid and location equal the manifest's (independent decoder) - not an error, a panic or bytes; get_pack(id > max) is None; check() is Ok(true). Non-trivial = a scenario with at least one pack unavailable and one available, both holding contents that are read; distinct by (packaging, pack count, subset, kind). Fixed cases 'alternative packs': two content packs declared under ONE id (spec/manifest.rst: the one declared first has priority) next to two ordinary packs, 4 declaration orders, every subset of the four pack files removed: while the first-declared pack is available its bytes are served; without it the answer is MISSING describing it (or the alternative's bytes); ordinary packs read or are MISSING as usual; check() is Ok(true). Every scenario is asked again on a fresh container last pack first; then every deleted pack file is put back at its recorded location and the container that reported it missing must read its contents.".into()
+        "proptest-generated containers with 1-3 content packs in separate files (main pack through TwoFiles/NoConcat, extra packs always, OneFile with >=1 extra), contents distributed over all packs, directory entries pointing at real contents; for EVERY non-empty subset of the separate packs and every kind of unavailability {file deleted, replaced by a directory, replaced by a different valid container holding another uuid, replaced by a different valid bare content pack} (plus one mixed assignment). Oracle: Container::new succeeds; every entry equals the model; a content of an available pack reads to its bytes; a content of an unavailable pack answers MISSING whose pack id, uuid and location equal the manifest's (independent decoder) - not an error, a panic or bytes; get_pack(id > max) is None; check() is Ok(true). Non-trivial = a scenario with at least one pack unavailable and one available, both holding contents that are read; distinct by (packaging, pack count, subset, kind). Fixed cases 'alternative packs': two content packs declared under ONE id (spec/manifest.rst: the one declared first has priority) next to two ordinary packs, 4 declaration orders, every subset of the four pack files removed: while the first-declared pack is available its bytes are served; without it the answer is MISSING describing it (or the alternative's bytes); ordinary packs read or are MISSING as usual; check() is Ok(true). Every scenario is asked again on a fresh container last pack first; then every deleted pack file is put back at its recorded location and the container that reported it missing must read its contents. A sixth kind of unavailability: the twin (the same container built a second time: a valid pack of the same size at the same place under another uuid). Packs replaced by a foreign or twin file are put back like the deleted ones.".into()
     }
 
     fn cases(tier: Tier) -> u32 {
@@ -222,7 +225,7 @@ impl Property for C11 {
     }
 
     fn required_classes(_tier: Tier) -> Vec<&'static str> {
-        vec!["alternative-packs-same-id", "damaged-present-pack-detected", "separate-packs:1", "separate-packs:2", "separate-packs:3", "kind:Deleted", "kind:Directory", "kind:ForeignContainer", "kind:ForeignBarePack", "kind:PointsToOtherPack", "some-available-some-not", "all-unavailable", "main-pack-unavailable"]
+        vec!["alternative-packs-same-id", "damaged-present-pack-detected", "separate-packs:1", "separate-packs:2", "separate-packs:3", "kind:Deleted", "kind:Directory", "kind:ForeignContainer", "kind:ForeignBarePack", "kind:PointsToOtherPack", "kind:Twin", "some-available-some-not", "all-unavailable", "main-pack-unavailable"]
     }
 
     fn case_timeout_s(_tier: Tier) -> u64 {
@@ -280,7 +283,10 @@ impl Property for C11 {
         ensure!(!separate.is_empty(), "harness-no-separate-pack", "harness: no separate content pack in this case");
         info.class(format!("separate-packs:{}", separate.len()));
         let max_id = m.pack_infos.iter().map(|p| p.pack_id).max().unwrap();
-        let kinds = [Unavail::Deleted, Unavail::Directory, Unavail::ForeignContainer, Unavail::ForeignBarePack, Unavail::PointsToOtherPack];
+        // the twin: the same spec built once more (same file names and sizes, other uuids)
+        let tdir = ctx.subdir("c11-twin");
+        build(&spec, &tdir, "a.jbk", None)?;
+        let kinds = [Unavail::Deleted, Unavail::Directory, Unavail::ForeignContainer, Unavail::ForeignBarePack, Unavail::PointsToOtherPack, Unavail::Twin];
         let mut scenarios: Vec<Vec<Option<Unavail>>> = vec![];
         for subset in 1u32..(1 << separate.len()) {
             for k in kinds {
@@ -320,6 +326,10 @@ impl Property for C11 {
                     }
                     Some(Unavail::ForeignContainer) => {
                         std::fs::copy(fdir.join("f.jbkc"), &path).unwrap();
+                    }
+                    Some(Unavail::Twin) => {
+                        ensure!(std::fs::metadata(tdir.join(&loc)).map(|m| m.len()).ok() == std::fs::metadata(&path).map(|m| m.len()).ok(), "harness-twin-size", "harness: the twin of {loc} has another size");
+                        std::fs::copy(tdir.join(&loc), &path).unwrap();
                     }
                     Some(Unavail::ForeignBarePack) => {
                         std::fs::copy(fdir.join("bare.jbkc"), &path).unwrap();
@@ -416,7 +426,7 @@ impl Property for C11 {
             {
                 let mut restored = vec![];
                 for (p, u) in separate.iter().zip(sc.iter()) {
-                    if matches!(u, Some(Unavail::Deleted) | Some(Unavail::Directory)) {
+                    if matches!(u, Some(Unavail::Deleted) | Some(Unavail::Directory) | Some(Unavail::Twin) | Some(Unavail::ForeignContainer) | Some(Unavail::ForeignBarePack)) {
                         let loc = String::from_utf8(p.location.clone()).unwrap();
                         let path = d.join(&loc);
                         if path.is_dir() {
